@@ -46,38 +46,43 @@ type FloatEnt struct {
 }
 
 type Obs struct {
-	Crash  string      `json:"crash,omitempty"`
-	Toks   []Tok       `json:"toks,omitempty"`
-	Errs   []string    `json:"errs,omitempty"`
-	Ok     bool        `json:"ok"`
-	Out    []int       `json:"out,omitempty"`    // output text as runes
-	OutHex string      `json:"outhex,omitempty"` // output bytes when not valid UTF-8
-	Res    string      `json:"res,omitempty"`    // unmarshal: ok | err | json | more
-	First  string      `json:"first,omitempty"`
-	Items  [][2][]int  `json:"items,omitempty"` // series: (type name bytes, json runes)
-	Strs   [][]int     `json:"strs,omitempty"`  // shell tokens (bytes)
-	Floats []FloatEnt  `json:"floats,omitempty"`
-	Valid  *bool       `json:"valid,omitempty"` // json.Valid(output)
-	Got    string      `json:"got,omitempty"`   // canonical form of the decoded output
-	Tree   interface{} `json:"tree,omitempty"`  // jsonparse: decoded tree
-	NonPr  []int       `json:"nonprint,omitempty"`
-	Text   string      `json:"text,omitempty"` // printable copy of the output for reports
-	Note   string      `json:"note,omitempty"`
+	Crash   string      `json:"crash,omitempty"`
+	Toks    []Tok       `json:"toks,omitempty"`
+	Errs    []string    `json:"errs,omitempty"`
+	Ok      bool        `json:"ok"`
+	Out     []int       `json:"out,omitempty"`    // output text as runes
+	OutHex  string      `json:"outhex,omitempty"` // output bytes when not valid UTF-8
+	Res     string      `json:"res,omitempty"`    // unmarshal: ok | err | json | more
+	First   string      `json:"first,omitempty"`
+	Items   [][2][]int  `json:"items,omitempty"`   // series: (type name bytes, json runes)
+	Rejects [][2][]int  `json:"rejects,omitempty"` // tseries: entries whose JSON the strict decoding rejects
+	Vals    [][]int     `json:"vals,omitempty"`    // stream: the JSON of the values decoded one after the other
+	Fin     int         `json:"fin,omitempty"`     // stream: 0 More() false, 1 Decode errors, 2 json.Unmarshal error
+	Strs    [][]int     `json:"strs,omitempty"`    // shell tokens (bytes)
+	Floats  []FloatEnt  `json:"floats,omitempty"`
+	Valid   *bool       `json:"valid,omitempty"` // json.Valid(output)
+	Got     string      `json:"got,omitempty"`   // canonical form of the decoded output
+	Tree    interface{} `json:"tree,omitempty"`  // jsonparse: decoded tree
+	NonPr   []int       `json:"nonprint,omitempty"`
+	Text    string      `json:"text,omitempty"` // printable copy of the output for reports
+	Note    string      `json:"note,omitempty"`
 }
 
 type Case struct {
-	I       int         `json:"i"`
-	Stream  string      `json:"stream"`
-	Op      string      `json:"op"`
-	In      string      `json:"in"`             // input bytes, hex
-	Src     string      `json:"src,omitempty"`  // printable copy of the input
-	Want    string      `json:"want,omitempty"` // canonical intended value
-	Known   []string    `json:"known,omitempty"`
-	Reject  bool        `json:"reject,omitempty"`  // the input must be rejected
-	Plain   bool        `json:"plain,omitempty"`   // the input is a valid RFC 8259 text
-	Reasons []string    `json:"reasons,omitempty"` // documented reasons for JSONx to reject it
-	PV      interface{} `json:"pv,omitempty"`      // print: the value tree
-	Obs     *Obs        `json:"obs,omitempty"`
+	I         int         `json:"i"`
+	Stream    string      `json:"stream"`
+	Op        string      `json:"op"`
+	In        string      `json:"in"`             // input bytes, hex
+	Src       string      `json:"src,omitempty"`  // printable copy of the input
+	Want      string      `json:"want,omitempty"` // canonical intended value
+	Known     []string    `json:"known,omitempty"`
+	Reject    bool        `json:"reject,omitempty"`    // the input must be rejected
+	Plain     bool        `json:"plain,omitempty"`     // the input is a valid RFC 8259 text
+	Reasons   []string    `json:"reasons,omitempty"`   // documented reasons for JSONx to reject it
+	PV        interface{} `json:"pv,omitempty"`        // print: the value tree
+	WantItems []WantItem  `json:"wantitems,omitempty"` // tseries: the intended entries
+	Multi     bool        `json:"multi,omitempty"`     // stream: Want lists the intended values
+	Obs       *Obs        `json:"obs,omitempty"`
 
 	goVal interface{} // print: the Go value (not serialised)
 }
@@ -493,6 +498,10 @@ func runCase(c *Case) {
 		} else if typed != nil {
 			o.Note = "result together with errors"
 		}
+	case "tseries":
+		runTyped(c, o, in)
+	case "stream":
+		runStream(o, in)
 	case "shell":
 		ss, es := strtoken.Parse(string(in))
 		o.Errs = errNames(es)
@@ -688,6 +697,9 @@ func main() {
 	if *oneOp != "" {
 		in, _ := hex.DecodeString(*oneIn)
 		cs = []Case{{I: 0, Stream: *oneStream, Op: *oneOp, In: *oneIn, Src: printable(in), Known: seriesKnown}}
+		if *oneOp == "tseries" {
+			cs[0].Known = typedKnown
+		}
 	}
 	out := hx.NewOut(os.Stdout)
 	if *child {
